@@ -52,6 +52,17 @@ theorem invert_loop (body : Int → (List Int × Bool) → Py.M ((List Int × Bo
     rw [h]
     simp [Str.invertAux, invI_eq]
 
+/-- the whole function, for any loop body that does what one iteration does -/
+theorem invert_main (body : Int → (List Int × Bool) → Py.M ((List Int × Bool) × Bool))
+    (hbody : ∀ (done : List Int) (c : Int) (rest : List Int) (fl : Bool),
+      body (done.length : Int) (done ++ c :: rest, fl) = .ok ((done ++ invI fl c :: rest, !fl), false))
+    (bs : Bytes) (fl : Bool) :
+    Py.bind (Py.forRangeGo body bs.length 0 (ofBytes bs, fl)) (fun x => match x with | (bytes, _) => Except.ok bytes)
+      = .ok (ofBytes (Str.invertAux fl bs)) := by
+  obtain ⟨fl', h⟩ := invert_loop body hbody bs [] fl
+  simp only [List.length_nil, Int.natCast_zero, List.nil_append] at h
+  rw [h]; rfl
+
 theorem invert_characters_eq (bs : Bytes) :
     Src.Str._invert_characters (ofBytes bs) = .ok (ofBytes (Str.invert bs)) := by
   unfold Src.Str._invert_characters Py.forRange Str.invert
@@ -63,24 +74,36 @@ theorem invert_characters_eq (bs : Bytes) :
       simp [h, this]
     · have : ¬ (bs.length : Int) % 2 = 1 := by omega
       simp [h, this]
-  rw [hlen, hf, Int.toNat_natCast]
-  obtain ⟨fl', h⟩ := invert_loop _ (by
-    intro done c rest fl
-    have hget : Py.getItem (α := (List Int × Bool) × Bool) (done ++ c :: rest) (done.length : Int) = fun k => k c := by
-      funext k
-      have h0 : (0 : Int) ≤ done.length ∧ (done.length : Int) < (done.length : Int) + ((rest.length : Int) + 1) := by omega
-      have hneg : ¬ ((done.length : Int) < 0) := by omega
-      simp [Py.getItem, Py.normIndex, Py.len, hneg, h0]
-    have hset : ∀ v : Int, 0 ≤ v ∧ v < 256 → Py.setItem (α := List Int) (done ++ c :: rest) (done.length : Int) v = fun k => k (done ++ v :: rest) := by
-      intro v hv
-      funext k
-      have h0 : (0 : Int) ≤ done.length ∧ (done.length : Int) < (done.length : Int) + ((rest.length : Int) + 1) := by omega
-      have hneg : ¬ ((done.length : Int) < 0) := by omega
-      simp [Py.setItem, Py.normIndex, Py.len, hneg, h0, hv]
-    trace_state
-    sorry) bs [] (bs.length % 2 == 1)
-  simp only [List.length_nil, Int.natCast_zero, List.nil_append] at h
-  have h' := h
-  simp only [Int.ofNat_eq_natCast] at h' ⊢
-  sorry
+  simp only [hlen, hf, Int.toNat_natCast]
+  refine invert_main _ ?_ bs _
+  intro done c rest fl
+  have h0 : (0 : Int) ≤ done.length ∧ (done.length : Int) < (done.length : Int) + ((rest.length : Int) + 1) := by omega
+  have hneg : ¬ ((done.length : Int) < 0) := by omega
+  have hget : ∀ k : Int → Py.M ((List Int × Bool) × Bool),
+      Py.getItem (done ++ c :: rest) (done.length : Int) k = k c := by
+    intro k
+    simp [Py.getItem, Py.normIndex, Py.len, hneg, h0]
+  have hset : ∀ (v : Int) (k : List Int → Py.M (List Int)), 0 ≤ v ∧ v < 256 →
+      Py.setItem (done ++ c :: rest) (done.length : Int) v k = k (done ++ v :: rest) := by
+    intro v k hv
+    simp [Py.setItem, Py.normIndex, Py.len, hneg, h0, hv]
+  simp only [hget]
+  by_cases hc : (0x22 : Int) ≤ c ∧ c ≤ 0x7E
+  · have hr := invI_range fl c hc
+    have hv : invI fl c = 0x9F - c - (if fl then (if c ≥ 0x50 then -0x2E else 0x2E) else 0) := by
+      unfold invI; simp only [hc, and_self, if_true]
+    cases fl <;> by_cases h5 : c ≥ 0x50 <;> simp [hc, h5] at hv hr ⊢ <;> rw [hset _ _ (by omega)] <;> simp [hv] <;> omega
+  · have hv : invI fl c = c := by unfold invI; simp only [hc, if_false]
+    have hc' : ¬ (34 ≤ c ∧ c ≤ 126) := hc
+    cases fl <;> simp [hc', hv]
+
+/-- `encode_string` / `decode_string` of the source are the model's `encode` / `decode`. -/
+theorem encode_string_eq (bs : Bytes) : Src.Str.encode_string (ofBytes bs) = .ok (ofBytes (Str.encode bs)) := by
+  unfold Src.Str.encode_string Str.encode
+  rw [invert_characters_eq]; simp [ofBytes]
+
+theorem decode_string_eq (bs : Bytes) : Src.Str.decode_string (ofBytes bs) = .ok (ofBytes (Str.decode bs)) := by
+  unfold Src.Str.decode_string Str.decode
+  have : (ofBytes bs).reverse = ofBytes bs.reverse := by simp [ofBytes]
+  simp only [this, invert_characters_eq]; rfl
 end EoVerif.SrcTie
